@@ -152,9 +152,56 @@ def run_timing(case):
     return out
 
 
+def run_clients(case):
+    """case["clients"] paper-trade clients in one framework; every client places one crossing order (matched in full on arrival).  Then the
+    framework's paper-trading order streams are polled (each stream's own _get_current_orders) and their snapshots processed: every order of every
+    client must be reported by exactly one stream, and afterwards be complete and out of the live list with its trade complete."""
+    from flumine.streams.simulatedorderstream import SimulatedOrderStream, CurrentOrders
+    from flumine.events.events import CurrentOrdersEvent
+    n = case.get("clients", 2)
+    cls = [clients.BetfairClient(mock.Mock(lightweight=False, username="paper%d" % i), paper_trade=True, min_bet_validation=False, username="paper%d" % i) for i in range(n)]
+    fw = Flumine(client=cls[0])
+    for c in cls[1:]:
+        fw.add_client(c)
+    st = Placer(market_filter={"marketIds": [MARKET_ID]}, max_order_exposure=10 ** 6, max_selection_exposure=10 ** 6, max_live_trade_count=10 ** 6, max_trade_count=10 ** 6)
+    st.todo = []
+    fw.add_strategy(st)
+    st.start(fw)
+    stream_id = st.stream_ids[0]
+    now = int(time.time() * 1000)
+    cache = MarketBookCache(MARKET_ID, now, False, False, True)
+    out = {"error": None}
+    try:
+        cache.update_cache({"id": MARKET_ID, "marketDefinition": market_definition([201, 202]), "rc": [{"id": 201, "atb": [[2.0, 1000]], "atl": [[2.1, 1000]]}, {"id": 202, "atb": [[3.0, 1000]], "atl": [[3.2, 1000]]}]}, now, True)
+        fw._process_market_books(MarketBookEvent([cache.create_resource(stream_id, snap=True)]))
+        market = fw.markets.markets[MARKET_ID]
+        orders = []
+        for i, c in enumerate(cls):
+            tr = Trade(MARKET_ID, 201 + (i % 2), 0, st)
+            o = tr.create_order(side="BACK", order_type=LimitOrder(price=2.0 if i % 2 == 0 else 3.0, size=2.0))
+            market.place_order(o, client=c)
+            orders.append(o)
+        fw.simulated_execution._thread_pool.shutdown(wait=True)
+        sos = [s for s in fw.streams if isinstance(s, SimulatedOrderStream)]
+        out["streams"] = []
+        for s in sos:
+            got = s._get_current_orders()
+            out["streams"].append({"client": next((i for i, c in enumerate(cls) if c is s.client), -1), "orders": sorted(orders.index(o) for o in got if o in orders)})
+            if got:
+                fw._process_current_orders(CurrentOrdersEvent([CurrentOrders(got, s.client)]))
+        out["orders"] = [{"client": i, "status": o.status.value, "matched": o.size_matched, "complete": bool(o.complete), "in_live": sum(1 for x in market.blotter._live_orders if x is o),
+                          "trade_status": o.trade.status.value} for i, o in enumerate(orders)]
+    except Exception as e:
+        import traceback
+        out["error"] = type(e).__name__ + ":" + str(e)[:200] + traceback.format_exc()[-400:]
+    return out
+
+
 def main():
     j = json.loads(sys.stdin.read())
-    if j["job"] == "timing":
+    if j["job"] == "clients":
+        res = [run_clients(c) for c in j["cases"]]
+    elif j["job"] == "timing":
         res = [run_timing(c) for c in j["cases"]]
     elif j["job"] == "arrival":
         res = [run_arrival(c) for c in j["cases"]]
